@@ -48,8 +48,8 @@ theorem scanOld_flok (st : State) (prev : OutPoint) (base : Nat) (l : List (Nat 
         · intro seq' osp ho
           simp only [Origin.old.injEq] at ho
           obtain ⟨rfl, -⟩ := ho
-          obtain ⟨e0, h0, h1⟩ := hins seq off List.mem_cons_self
-          exact ⟨e0, h0, fun s hs => hnew off s (h1 s hs)⟩)
+          obtain ⟨e0, s, h0, h1, h2⟩ := hins seq off List.mem_cons_self
+          exact ⟨e0, s, h0, h1, hnew off s h2⟩)
       exact ⟨a, b, c⟩
 
 theorem scanNew_flok (st : State) (jub : Bool) (txid : Txid) (i off iv totalOut : Nat)
@@ -220,7 +220,7 @@ theorem LsInv.of_entries {NR : Ranges} {ls : LocState} (h : LsInv NR ls) (st1 : 
   refine ⟨?_, ?_, ?_⟩
   · intro e hm; show EntSat st1.entries e; rw [he]; exact h.outs e hm
   · intro ne hne; show InsSat st1.entries NR ne.ins; rw [he]; exact h.nul ne (hn ▸ hne)
-  · intro ue hue; show InsSat st1.entries [] ue.ins; rw [he]; exact h.unb ue (hu ▸ hue)
+  · intro ue hue; show InsNone st1.entries ue.ins; rw [he]; exact h.unb ue (hu ▸ hue)
 
 /-- **placement, non-coinbase**: `CBI` = the ranges queued for the coinbase before this
 transaction (`reward` is their size); afterwards the saved flotsam points at its sats in
@@ -266,12 +266,12 @@ theorem placeTx_noncb_inv (cfg : Cfg) (height time : Nat) (tx : Tx) (R : Ranges)
       · obtain ⟨g, hg, rfl⟩ := List.mem_map.1 hf
         obtain ⟨hgf, hge⟩ := hrest g hg
         intro seq osp ho
-        obtain ⟨e0, h0', h1⟩ := ((hfl g hgf).mono x2') seq osp ho
-        refine ⟨e0, h0', fun s hsat => ?_⟩
+        obtain ⟨e0, s, h0', hsat, h1⟩ := ((hfl g hgf).mono x2') seq osp ho
+        refine ⟨e0, s, h0', hsat, ?_⟩
         have := carry_points_at_sat CBI _ R r hs ls.ctx.reward hrew g.offset hge
         show (den (CBI ++ r.leftover))[ls.ctx.reward + g.offset - _]? = some s
         rw [hsum, this]
-        exact h1 s hsat
+        exact h1
 
 /-! ### the coinbase -/
 
